@@ -5,7 +5,7 @@
     statements are refused or skipped, and the refutation witnesses (known findings).
     Exactness M = S on the guarded core grammar is checked by correspondence on generated
     statements on every run, not proved (DESIGN.md section 6, C01: Lemma A is future work). *)
-From SV Require Import Tree.Observe Tree.BasicProofs Ast.Spec Props.Witness.
+From SV Require Import Tree.Observe Tree.BasicProofs Ast.Spec Ast.SpecRec Props.Witness.
 
 Theorem c01_nodata : forall e silent t g c r w cm mt ch,
   In t NOOP_TYPES -> analyze e silent (Seg t g c r w cm mt ch) = Ok empty_graph.
@@ -52,3 +52,11 @@ Example c01_nonvacuous :
                  false (Some ("x", QSelect [IExpr (EColRef None "k") None] [RTable (Some "s2", "t3") (Some "p")] false None)))))
   = "R=<default>.t4,s1.t1,s2.t3;W=s3.out1".
 Proof. reflexivity. Qed.
+
+(** WITH RECURSIVE: the specification used for statements printed with RECURSIVE ([spec_reads_rec], a CTE's
+    name is visible in its own body) is conservative over the plain one: they agree whenever no CTE body
+    makes use of its own name. *)
+Theorem c01_recursive_conservative : forall fuel ds ctes q,
+  self_free fuel ds ctes q -> q_reads_rec fuel ds ctes q = q_reads fuel ds ctes q.
+Proof. exact q_reads_rec_self_free. Qed.
+Print Assumptions c01_recursive_conservative.
